@@ -183,7 +183,10 @@ func (h *eventHandlerImpl) HandleEventBatch(ctx context.Context, logger logr.Log
 
 		h.setLatestConfiguration(&cfg)
 
-		if h.cfg.plus {
+		// The NGINX Plus API can only adjust the servers of upstreams NGINX already loaded. If the last attempt to
+		// write and reload the configuration failed, NGINX does not run that configuration: go through the files and
+		// a reload again instead of reporting success on the strength of the API calls alone.
+		if h.cfg.plus && h.latestReloadResult.Error == nil {
 			err = h.updateUpstreamServers(cfg)
 		} else {
 			err = h.updateNginxConf(ctx, cfg)
